@@ -21,6 +21,7 @@
 //@harness c20_cmp_numeric_trans_fff complete "kind triple fff (i=Int, f=Float incl. NaN, +-0, +-inf), all 64-bit payloads: a<=b & b<=c => a<=c; a~b & b~c => a~c"
 //@harness c20_cmp_scalar_pairs complete "Null, Bool, Int, Float, DateTime, NodeId, ExternalId, EdgeKey in every kind pair with symbolic payloads: antisymmetry/totality; different rank classes ordered by rank alone"
 //@harness c20_cmp_reference_scalar complete "the comparator EQUALS the reference order inside each scalar class, all payloads: Bool false<true; Int and DateTime by value; Float by IEEE order with -0.0 ~ +0.0 and every NaN (either sign bit) equal to every other NaN and greater than every number; NodeId/ExternalId by their numeric id as u64 in all four kind pairs; EdgeKey by (src, rel, dst); Null greater than everything"
+//@harness c20_cmp_list_ref_b2 bounded(len<=2) "lists of up to 2 elements, each Int (symbolic) or Null, every kind combination, on stack arrays: compare_lists_ordering equals the reference (element-wise, Null greatest, then length) and is antisymmetric"
 //@harness c20_cmp_class_trans complete "transitivity inside each non-numeric rank class (Bool, DateTime, NodeId/ExternalId mixed, EdgeKey), symbolic payloads"
 #[cfg(kani)]
 mod verif_kani_c20 {
@@ -185,5 +186,31 @@ mod verif_kani_c20 {
              && order_compare(&Value::Null, &Value::Null) == Ordering::Equal, "C20.cmp.ref.null_last");
         kani::cover!(x.is_nan() && (p >> 63) == 1, "reach: NaN with the sign bit set");
         kani::cover!(p > u32::MAX as u64, "reach: external id above u32");
+    }
+    fn lelem(is_null: bool, p: i64) -> Value { if is_null { Value::Null } else { Value::Int(p) } }
+    fn ref_elem(an: bool, a: i64, bn: bool, b: i64) -> Ordering {
+        match (an, bn) { (true, true) => Ordering::Equal, (true, false) => Ordering::Greater, (false, true) => Ordering::Less, _ => a.cmp(&b) }
+    }
+    // stack arrays, not Vec (a tag read back from the heap never terminates in CBMC)
+    #[kani::proof]
+    #[kani::unwind(18)]
+    fn c20_cmp_list_ref_b2() {
+        let (p1, p2, q1, q2): (i64, i64, i64, i64) = (kani::any(), kani::any(), kani::any(), kani::any());
+        let mut k = 0u8;
+        while k < 16 {
+            let (a1, a2, b1, b2) = (k & 1 == 1, k & 2 == 2, k & 4 == 4, k & 8 == 8);
+            let l = [lelem(a1, p1), lelem(a2, p2)];
+            let r = [lelem(b1, q1), lelem(b2, q2)];
+            let want = match ref_elem(a1, p1, b1, q1) { Ordering::Equal => ref_elem(a2, p2, b2, q2), o => o };
+            let got = compare_lists_ordering(&l, &r);
+            assert!(got == Some(want), "C20.cmp.list.ref.b2");
+            assert!(compare_lists_ordering(&r, &l) == Some(want.reverse()), "C20.cmp.list.total.b2");
+            // a proper prefix sorts first
+            assert!(compare_lists_ordering(&l[..1], &l) == Some(Ordering::Less) && compare_lists_ordering(&l, &l[..1]) == Some(Ordering::Greater), "C20.cmp.list.prefix_first.b2");
+            core::mem::forget(l);
+            core::mem::forget(r);
+            k += 1;
+        }
+        kani::cover!(true, "reach: end");
     }
 }
